@@ -5,7 +5,7 @@ import OpusProofs.GainPureHist
   frames)".
 
   Model: C01's decoder skeleton (`OpusModel/DecSkel.lean`: opus_decode_frame / opus_decode_native / the three API
-  wrappers / OPUS_RESET_STATE / OPUS_SET_GAIN; the gain pass of src/opus_decoder.c:646-660 is the logged event
+  wrappers / OPUS_RESET_STATE / OPUS_SET_GAIN; the gain pass of src/opus_decoder.c:654-668 is the logged event
   `.acc 11 pcm n`; tied to the code by C01's `decskel` correspondence suite).  `gz` / `zg` = forget `decode_gain` (and the
   gain-pass events); `gzCall` = the same call for the gain-0 twin (an accepted OPUS_SET_GAIN(v) becomes OPUS_SET_GAIN(0)).
   Sample semantics: `OpusProofs/GainPureSem.lean` (samples in any type with a multiplication; gain pass = `k * ·`).
@@ -134,20 +134,23 @@ example : gained (callObs ⟨fun _ a => (0, silkSamples a, 1), fun _ a => a.fram
       mode := 0, prev_mode := 0, frame_size := 120, prev_redundancy := 0, last_packet_duration := 0 }
     (.decode .f32 (some [249, 1, 2, 3, 4]) 5 1920 0)).1.log .pcm 3839 = true := by decide +kernel
 
-/-- **gain_history_output_scaled.**  The whole clause for whole histories.  Take any history of calls that do not run the
-    soft clipper (decode / lost packet / FEC through opus_decode_float or opus_decode24, raw native calls, resets, gain
-    changes; any arguments), DSP oracles within C01's contracts, a decoder state satisfying `DecInv`, any sample type with
-    a multiplication, any constant `k` and any DSP sample semantics with the footprint property.  Call by call, the
-    observation of the history and the observation of its gain-0 twin are related by `ScaledObs`: same return value, same
-    `*packet_offset`, same events up to gain passes, and the memory (caller's buffer and scratch buffers) after the call is
-    the twin's memory with the samples covered by a gain pass multiplied by `k`, each once:  pcm_g = k · pcm_0.
-    (The soft clipper of `opus_decode` runs after all gain passes on the whole output, src/opus_decoder.c:815-820; the
+/-- **gain_history_output_scaled.**  The whole clause for whole histories.  Take any history of calls (decode / lost
+    packet / FEC through opus_decode, opus_decode24 or opus_decode_float, raw native calls as the multistream decoder makes
+    them, resets, gain changes; any arguments, packet bytes < 256), DSP oracles within C01's contracts, a decoder state
+    satisfying `DecInv`, any sample type with a multiplication, any constant `k` and any DSP sample semantics with the
+    footprint property.  Call by call, the observation `x0` of the gain-0 twin is the observation `xg` of the history with
+    the gain passes erased (same return value, same `*packet_offset`, same events otherwise), and for every call that does
+    not run the soft clipper (`noClip`: everything except opus_decode / native calls with soft_clip) `ScaledObs` holds: the
+    memory (caller's buffer and scratch buffers) after the call is the twin's memory with the samples covered by a gain
+    pass multiplied by `k`, each once, and identical elsewhere:  pcm_g = k · pcm_0.
+    (The soft clipper of `opus_decode` runs after all gain passes on the whole output, src/opus_decoder.c:823-828; the
     int16 result is then `FLOAT2INT16(softclip(k·pcm_0))`, C19 `integer_output_saturates`, searched in S4.) -/
 theorem gain_history_output_scaled {α : Type} [Mul α] (k : α) (dsp : List Ev → Ev → Mem α → Mem α) (hd : DspLocal dsp)
     (os : Nat → Oracle) (hos : ∀ i, OracleOk (os i)) (cs : List Call) (i : Nat) (st : DecState) (hinv : DecInv st)
-    (hcs : ∀ c ∈ cs, c.WF ∧ noClip c = true) :
-    List.Forall₂ (ScaledObs k dsp) (runCalls os i st cs).1 (runCalls os i (zg st) (cs.map gzCall)).1 :=
-  runCalls_scaled k dsp hd os hos cs i st hinv hcs
+    (hcs : ∀ c ∈ cs, c.WF) :
+    List.Forall₂ (fun (cx : Call × CallObs) (x0 : CallObs) => x0 = gzObs cx.2 ∧ (noClip cx.1 = true → ScaledObs k dsp cx.2 x0))
+      (cs.zip (runCalls os i st cs).1) (runCalls os i (zg st) (cs.map gzCall)).1 :=
+  runCalls_scaled_mixed k dsp hd os hos cs i st hinv hcs
 
 example : OracleOk exOracle := exOracle_ok
 example : ∀ c ∈ [Call.gain 256, .decode .f32 (some [249, 1, 2, 3, 4]) 5 1920 0, .decode .f32 none 0 960 0, .reset],
